@@ -88,13 +88,13 @@ SPEC("pane.classes", "PaneBase.dict",
                forall_val(lambda k: implies(shas(as_set(getattr(self, "__pane_set__")), k), mhas(result, rf(k, rename))))
                and forall_val(lambda k2: implies(mhas(result, k2), exists_val(
                    lambda k: shas(as_set(getattr(self, "__pane_set__")), k) and rf(k, rename) == k2 and mget(result, k2) == getattr(self, k))))),
-               ["C14", "C16"], "set-only"),
+               ["C14", "C16", "C20"], "set-only"),
               (lambda self, set_only, rename, result: implies(not truthy(set_only),
                forall(range(nfields(self)), lambda i: implies(not truthy(sat(self.__pane_info__.fields, i).exclude), mhas(result, rf(fname(self, i), rename))))
                and forall_val(lambda k2: implies(mhas(result, k2), exists(range(nfields(self)), lambda i:
                    not truthy(sat(self.__pane_info__.fields, i).exclude) and rf(fname(self, i), rename) == k2
                    and mget(result, k2) == getattr(self, fname(self, i)))))),
-               ["C05", "C16"], "all-fields")])
+               ["C05", "C16", "C20"], "all-fields")])
 
 
 # ---- the converter of a dataclass: the class (subscripted by the type arguments, if any) with the handlers threaded (C18) -------
